@@ -221,7 +221,15 @@ def common_main(chk: core.Check, oracle_fn, note: str):
     if not g["ok"] or not g2["ok"]:
         chk.obligation_broken("translator", "regenerate geometry/digi models", g["error"] or g2["error"])
     else:
-        chk.prove(extra_allowed=bv_axiom_ok)
+        mods = [chk.prop]
+        if chk.prop == "C08":
+            # the record parsers as compositions of the kernels: "the gid obtained by parsing a digi identifier equals the one obtained from its decoded fields"
+            g3 = gen.gen_detparse()
+            if not g3["ok"]:
+                chk.obligation_broken("translator", "translate the record parsers of detectors/__init__.py into Gen/DetParse.lean", g3["error"])
+            mods.append("DetParseTie")
+        from checks.c05 import bv_axiom_any
+        chk.prove(extra_allowed=bv_axiom_any, modules=mods)
         try:
             diffs = correspond(chk, g["info"], thorough)
             chk.coverage["traces_validated_against_impl"] = chk.evals
